@@ -183,7 +183,8 @@ class Scrambler(Elaboratable):
         # Create our inner LFSR, which should advance whenever our input streams do.
         m.submodules.lfsr = lfsr = ScramblerLFSR(initial_value=self._initial_value)
         m.d.comb += [
-            lfsr.clear    .eq(self.clear | comma_present),
+            # (The COM only restarts our sequence once its word is actually transferred.)
+            lfsr.clear    .eq(self.clear | (comma_present & source.ready & ~self.hold)),
             lfsr.advance  .eq(sink.valid & source.ready & ~self.hold)
         ]
 
